@@ -16,7 +16,7 @@ if [ -f $S/demo_append_to ]; then
   T=$(cat $S/demo_append_to); cat $S/seeded_demo.rs >> $T
   echo "== 2. demonstration (module appended to $T) with the patch applied (must fail)"
   cargo test --offline --lib seeded_demo 2>&1 | grep -E "^test result|^test .*FAILED" | head -8
-  git checkout -q -- $T; cat $S/seeded_demo.rs >> $T
+  git checkout -q -- .; cat $S/seeded_demo.rs >> $T
   echo "== 3. demonstration without the patch (must pass)"
   cargo test --offline --lib seeded_demo 2>&1 | grep -E "^test result|^test .*FAILED" | head -8
   git checkout -q -- $T
